@@ -24,4 +24,5 @@ PROPS = {
     "C17": {"coq": "Properties/C17.v", "gens": ["C17"]},
     "C16": {"coq": "Properties/C16.v", "gens": ["C16"]},
     "C15": {"coq": "Properties/C15.v", "gens": ["C15"], "trusted_base": CRYPTO_TB},
+    "C20": {"coq": "Properties/C20.v", "gens": ["C20"], "bins": True},
 }
